@@ -75,12 +75,13 @@ def on_every_path(body, bb):
 
 
 def per_round_fields(facts, work_adt):
-    """fields of the work type written by its add_* methods"""
+    """fields of the work type written by its add_* methods"""  # and begin
     out = {}
     R = roles_mod.roles(facts)
     side = 'enc' if work_adt == roles_mod.ENC_WORK else 'dec'
-    for kind in ('original', 'recovery'):
-        p = R.fn.get('%s.add_%s' % (side, kind))
+    # ... and by the begin-of-encode/decode method (state derived there lives until the round ends, like what the adds record)
+    for role in ('%s.add_original' % side, '%s.add_recovery' % side, '%s.begin' % side):
+        p = R.fn.get(role)
         if p:
             for w in write_sites(facts, p):
                 if w[0]:
